@@ -86,7 +86,8 @@ def catalogue(rng):
              C("sortkey", "INTERLEAVED SORTKEY (a, b)", {"sortkey": {"type": "INTERLEAVED", "keys": ["a", "b"]}})],
         ]),
         "snowflake": (False, [
-            [C("cluster_by", "CLUSTER BY (a, b)", {"cluster_by": ["a", "b"]}), C("cluster_by", "CLUSTER BY (b)", {"cluster_by": ["b"]})],
+            [C("cluster_by", "CLUSTER BY (a, b)", {"cluster_by": ["a", "b"]}), C("cluster_by", "CLUSTER BY (b)", {"cluster_by": ["b"]}),
+             C("cluster_by", "CLUSTER BY (b, a)", {"cluster_by": ["b", "a"]}), C("cluster_by", "CLUSTER BY (b, a, b)", {"cluster_by": ["b", "a", "b"]})],
             [C("comment", "COMMENT = " + lit, {"comment": lit}, "common")],
             [C("data_retention_time_in_days", "DATA_RETENTION_TIME_IN_DAYS = %d" % n, {"data_retention_time_in_days": n}, "props")],
             [C("max_data_extension_time_in_days", "MAX_DATA_EXTENSION_TIME_IN_DAYS = %d" % n, {"max_data_extension_time_in_days": str(n)}, "props")],
@@ -101,7 +102,8 @@ def catalogue(rng):
         "bigquery": (True, [
             [C("partition_by", "PARTITION BY DATE(b)", {"partition_by": {"columns": ["b"], "type": "DATE"}}, "common"),
              C("partition_by", "PARTITION BY a", {"partition_by": {"columns": ["a"], "type": None}}, "common")],
-            [C("cluster_by", "CLUSTER BY a, b", {"cluster_by": ["a", "b"]}), C("cluster_by", "CLUSTER BY a", {"cluster_by": ["a"]})],
+            [C("cluster_by", "CLUSTER BY a, b", {"cluster_by": ["a", "b"]}), C("cluster_by", "CLUSTER BY a", {"cluster_by": ["a"]}),
+             C("cluster_by", "CLUSTER BY b, a", {"cluster_by": ["b", "a"]})],
             [C("options", "OPTIONS (description='d', labels='l')", {"options": [{"description": "'d'"}, {"labels": "'l'"}]}),
              C("options", "OPTIONS (description='only d')", {"options": [{"description": "'only d'"}]})],
         ]),
